@@ -35,7 +35,7 @@ THEOREMS = {
 # violation tags raised by the harness monitors that count for a property
 TAGS = {
     "C01": ["C01"], "C02": ["C02", "mem"], "C03": ["C03"], "C04": ["C04"], "C05": ["C05"], "C06": ["life"],
-    "C07": ["ledger", "C07"], "C08": ["C08"], "C09": ["C09"], "C10": ["C10"], "C11": ["C11"], "C12": ["C12"],
+    "C07": ["ledger", "C07"], "C08": ["C08"], "C09": ["C09"], "C10": ["C10"], "C11": ["C11", "life", "C01"], "C12": ["C12", "life", "C01"],
     "C13": ["C13"], "C14": ["C14"], "C15": ["C15"], "C16": ["C16"], "C17": ["C17", "ledger", "life"], "C18": ["C18"],
     "C19": ["C19"], "C20": ["C20"],
 }
@@ -56,6 +56,9 @@ def stream_layout(seed, tier):
         for s in range(seqs):
             out.append((c, gen.gen_history(rng, c, 14 if tier == "quick" else 40,
                                            weights={"emplace": 14, "pop": 1, "erase": 2, "eraser": 1, "clear": 1, "reserve": 2})))
+        # the block is sized for exactly N elements and B payload bytes: fill it to exactly that, in several ways
+        for mode in ((0, 1, 2, 3) if tier == "quick" else (0, 0, 0, 1, 2, 2, 3, 3)):
+            out.append((c, gen.gen_tight_fill(rng, c, mode)))
     return out
 
 
@@ -176,6 +179,10 @@ def stream_faults(seed, tier):
             c = gen.random_cfg(rng, "F%d" % i, category=["plain", "fixed", "varying", "mixed"][i % 4], tracked=(i % 2 == 0), alloc=alloc)
         cfgs.append(c)
     out = []
+    # systematic part: every allocating operation x fault position, on the corpus lists under the trait combinations
+    for i, c in enumerate(cfgs[: (13 if tier == "quick" else 60)]):
+        for seq in gen.gen_fault_matrix(rng, c):
+            out.append((c, seq))
     for c in cfgs:
         for s in range(3 if tier == "quick" else 6):
             out.append((c, gen.gen_history(rng, c, 40 if tier == "quick" else 100, multi=True, allocs=(1, 2), equal_sizes=c.tracked(), faults=True,
